@@ -31,21 +31,47 @@ def ctrl_rules(ctx, ob1):
         r = comb_def(c, "readable")
         ob1.instance("%s gating" % tag, {"writable": key(w) if w is not None else [str(d) for d in c.drivers("writable")],
                                          "readable": key(r) if r is not None else [str(d) for d in c.drivers("readable")]})
-        okw = False
-        if isinstance(w, Op) and len(w.args) == 2:
-            a, b = key(w.args[0]), key(w.args[1])
-            okw = (w.op == "<" and (a, b) == ("level", str(depth))) or (w.op == ">" and (a, b) == (str(depth), "level")) or \
-                  (w.op == "!=" and {a, b} == {"level", str(depth)}) or (w.op == "<=" and (a, b) == ("level", str(depth - 1)))
+        # the level one cycle ahead, as the level register's own update defines it
+        lv_next = None
+        for d_ in c.drivers("level"):
+            if d_.domain.startswith("sync") and not d_.guards and isinstance(d_.value, V):
+                lv_next = d_.value
+
+        def flag_ok(sig_, cmpf):
+            """comb flag: cmpf over `level`; registered flag (unconditional sync driver): the same test over the NEXT level value"""
+            wdef = comb_def(c, sig_)
+            if wdef is not None:
+                return cmpf(wdef, Sym("level"))
+            ds_ = [d_ for d_ in c.drivers(sig_)]
+            if len(ds_) == 1 and ds_[0].domain.startswith("sync") and not ds_[0].guards and isinstance(ds_[0].value, V) and lv_next is not None:
+                return cmpf(ds_[0].value, lv_next)
+            return False
+
+        def cmp_w(t_, lv_):
+            if not (isinstance(t_, Op) and len(t_.args) == 2):
+                return False
+            a_, b_ = t_.args
+            is_lv = lambda x_: lin_eq(x_, lv_) is True
+            is_d = lambda x_, n_: isinstance(x_, Const) and x_.v == n_
+            return (t_.op == "<" and is_lv(a_) and is_d(b_, depth)) or (t_.op == ">" and is_d(a_, depth) and is_lv(b_)) or \
+                   (t_.op == "!=" and ((is_lv(a_) and is_d(b_, depth)) or (is_lv(b_) and is_d(a_, depth)))) or (t_.op == "<=" and is_lv(a_) and is_d(b_, depth - 1))
+        okw = flag_ok("writable", cmp_w)
         if not okw:
             ob1.refute("writable:%d" % depth, "writable is %s, expected the combinational test level < depth (with <=, or with a registered flag that is one "
                        "cycle late, the FIFO accepts depth+1 words and overwrites unread data)" %
                        (key(w) if w is not None else [str(d) for d in c.drivers("writable")]), (c.drivers("writable") or [None])[0] and c.drivers("writable")[0].loc)
-        okr = False
-        if r is not None:
-            a, p = literal(r)
-            okr = (p and key(a) == "level") or (isinstance(r, Op) and r.op == ">" and key(r.args[0]) == "level" and key(r.args[1]) == "0") or \
-                  (isinstance(r, Op) and r.op == "<" and key(r.args[1]) == "level" and key(r.args[0]) == "0") or \
-                  (isinstance(r, Op) and r.op == ">=" and key(r.args[0]) == "level" and key(r.args[1]) == "1")
+        def cmp_r(t_, lv_):
+            a0, p0 = literal(t_)
+            if p0 and lin_eq(a0, lv_) is True:
+                return True
+            if not (isinstance(t_, Op) and len(t_.args) == 2):
+                return False
+            a_, b_ = t_.args
+            is_lv = lambda x_: lin_eq(x_, lv_) is True
+            is_c = lambda x_, n_: isinstance(x_, Const) and x_.v == n_
+            return (t_.op == ">" and is_lv(a_) and is_c(b_, 0)) or (t_.op == "<" and is_c(a_, 0) and is_lv(b_)) or (t_.op == ">=" and is_lv(a_) and is_c(b_, 1)) or \
+                   (t_.op == "!=" and ((is_lv(a_) and is_c(b_, 0)) or (is_lv(b_) and is_c(a_, 0))))
+        okr = flag_ok("readable", cmp_r)
         if not okr:
             ob1.refute("readable:%d" % depth, "readable is %s, expected the combinational test level > 0" %
                        (key(r) if r is not None else [str(d) for d in c.drivers("readable")]), None)
@@ -86,6 +112,16 @@ def ctrl_rules(ctx, ob1):
         vdef = _sd(v_, what + ".valid")
         alt = (nkeys(v_, conj(vdef)) | {what + ".ready"}) if vdef is not None else want
         okk = len(ds) == 1 and cond_keys(v_, ds[0]) in (want, alt)
+        if not okk and len(ds) == 1:
+            # equivalence by truth table: the condition under which the strobe is 1 == valid & ready of the DMA's sink (all definitions expanded)
+            c1 = [expand_term(v_, t_) for t_ in leaf_cond(ds[0])]
+            c2 = [expand_term(v_, Sym(what + ".valid")), expand_term(v_, Sym(what + ".ready"))]
+            if tgt == "sink.ready":
+                # the user-side handshake: a word leaves the user exactly when the DMA takes it (ready may be independent of valid)
+                c1 = c1 + [Sym("sink.valid")]
+            r1, _ = implies(c1, c2)
+            r2, _ = implies(c2, c1)
+            okk = r1 is True and r2 is True
         ob1.instance(tgt, [str(d) for d in ds])
         if not okk:
             ob1.refute("strobe:%s" % tgt, "%s is asserted by %s, expected exactly under fire(%s): the level would count words the DMA did not accept (or miss "
